@@ -398,7 +398,8 @@ func runShard(p *Prop, ph *Phase, tier string, seed int64, bindir, work string, 
 			o.incon["watchdog"] = fmt.Sprintf("worker %d of phase %s killed by the outer watchdog after %v at case %d", k, ph.Name, limit, lastB)
 			return o
 		}
-		if code == 0 && res.Done {
+		if (code == 0 || code == 66) && res.Done {
+			// 66 is the race detector's exit status when it reported races (GORACE halt_on_error=0); the reports are parsed from its log
 			return o
 		}
 		if code == 3 && lastS >= 0 {
